@@ -36,6 +36,8 @@ pub enum SV<'a> {
     Accm([u8; 4], [u8; 4]),
     Empty,
     Hidden(&'a [u8]),
+    /// no value (payload too short / unassigned type)
+    Nothing,
 }
 
 #[derive(Clone, Copy, Debug)]
@@ -45,16 +47,29 @@ pub struct SpecAvp<'a> {
     pub v: SV<'a>,
 }
 
-/// A specified rejection.  `exact = Some(e)`: the input has exactly one fault
-/// and the properties (C20) name the error it must produce.  `None`: rejected,
-/// any error is acceptable.
+/// Specified outcome of decoding one payload.  The *shape* of `v` depends only
+/// on the attribute type and the payload length (constants in the skeleton
+/// harnesses), never on payload contents, so that symbolic execution does not
+/// merge values of different shapes; content-dependent acceptance is the
+/// separate flag `ok`.
 #[derive(Debug)]
-pub struct SpecErr {
+pub struct SpecLeaf<'a> {
+    /// the specification accepts this payload
+    pub ok: bool,
+    /// on rejection: `Some(e)` if the input has exactly one fault and the
+    /// properties (C20) name the error it must produce; `None` = any error
     pub exact: Option<DE>,
+    /// the specified value (meaningful when `ok`; `SV::Nothing` when the
+    /// payload is too short to hold one or the type is unassigned)
+    pub v: SpecAvp<'a>,
 }
 
-fn exact<'a>(e: DE) -> Result<SpecAvp<'a>, SpecErr> {
-    Err(SpecErr { exact: Some(e) })
+fn reject<'a>(t: u16, e: DE) -> SpecLeaf<'a> {
+    SpecLeaf {
+        ok: false,
+        exact: Some(e),
+        v: SpecAvp { t, v: SV::Nothing },
+    }
 }
 
 /// RFC 2661 §3.2: assigned message types.
@@ -95,27 +110,34 @@ pub fn is_mask_kind(t: u16) -> bool {
 
 /// Specified decoding of the payload `p` of a non-hidden, vendor-0 AVP of
 /// attribute type `t`.
-pub fn spec_leaf<'a>(t: u16, p: &'a [u8]) -> Result<SpecAvp<'a>, SpecErr> {
+pub fn spec_leaf<'a>(t: u16, p: &'a [u8]) -> SpecLeaf<'a> {
     let n = p.len();
     if !attribute_type_assigned(t) {
-        return exact(DE::UnknownAvp(t));
+        return reject(t, DE::UnknownAvp(t));
     }
+    let accept = |v: SV<'a>| SpecLeaf {
+        ok: true,
+        exact: None,
+        v: SpecAvp { t, v },
+    };
     if let Some(l) = fixed_len(t) {
         if n < l {
-            return exact(DE::IncompleteAVP(t));
+            return reject(t, DE::IncompleteAVP(t));
         }
-        let v = match t {
+        return match t {
             0 => {
                 let c = be16(p, 0);
-                if !message_type_assigned(c) {
-                    return exact(DE::UnknownMessageType(c));
+                let ok = message_type_assigned(c);
+                SpecLeaf {
+                    ok,
+                    exact: if ok { None } else { Some(DE::UnknownMessageType(c)) },
+                    v: SpecAvp { t, v: SV::MessageType(c) },
                 }
-                SV::MessageType(c)
             }
-            2 => SV::ProtocolVersion(p[0], p[1]),
-            3 | 4 | 18 | 19 => SV::Mask(be32(p, 0)),
-            5 => SV::U64(be64(p, 0)),
-            6 | 9 | 10 | 14 => SV::U16(be16(p, 0)),
+            2 => accept(SV::ProtocolVersion(p[0], p[1])),
+            3 | 4 | 18 | 19 => accept(SV::Mask(be32(p, 0))),
+            5 => accept(SV::U64(be64(p, 0))),
+            6 | 9 | 10 | 14 => accept(SV::U16(be16(p, 0))),
             13 => {
                 let mut a = [0u8; 16];
                 let mut i = 0;
@@ -123,99 +145,101 @@ pub fn spec_leaf<'a>(t: u16, p: &'a [u8]) -> Result<SpecAvp<'a>, SpecErr> {
                     a[i] = p[i];
                     i += 1;
                 }
-                SV::Arr16(a)
+                accept(SV::Arr16(a))
             }
-            15 | 16 | 17 | 24 | 38 => SV::U32(be32(p, 0)),
-            25 | 36 => SV::Arr4([p[0], p[1], p[2], p[3]]),
+            15 | 16 | 17 | 24 | 38 => accept(SV::U32(be32(p, 0))),
+            25 | 36 => accept(SV::Arr4([p[0], p[1], p[2], p[3]])),
             29 => {
                 let c = be16(p, 0);
-                if c > 5 {
-                    // the properties do not name the error for this fault
-                    return Err(SpecErr { exact: None });
+                // the properties do not name the error for an unassigned code
+                SpecLeaf {
+                    ok: c <= 5,
+                    exact: None,
+                    v: SpecAvp { t, v: SV::ProxyAuthenType(c) },
                 }
-                SV::ProxyAuthenType(c)
             }
-            32 => SV::ProxyAuthenId(p[1]),
-            34 => SV::CallErrors([
+            32 => accept(SV::ProxyAuthenId(p[1])),
+            34 => accept(SV::CallErrors([
                 be32(p, 2),
                 be32(p, 6),
                 be32(p, 10),
                 be32(p, 14),
                 be32(p, 18),
                 be32(p, 22),
-            ]),
-            35 => SV::Accm([p[2], p[3], p[4], p[5]], [p[6], p[7], p[8], p[9]]),
-            39 => SV::Empty,
+            ])),
+            35 => accept(SV::Accm([p[2], p[3], p[4], p[5]], [p[6], p[7], p[8], p[9]])),
+            39 => accept(SV::Empty),
             _ => unreachable!(),
         };
-        return Ok(SpecAvp { t, v });
     }
     if is_bytes_kind(t) {
         if n == 0 {
-            return exact(DE::IncompleteAVP(t));
+            return reject(t, DE::IncompleteAVP(t));
         }
-        return Ok(SpecAvp { t, v: SV::Bytes(p) });
+        return accept(SV::Bytes(p));
     }
     if is_string_kind(t) {
         if n == 0 {
-            return exact(DE::IncompleteAVP(t));
+            return reject(t, DE::IncompleteAVP(t));
         }
-        if !is_utf8(p) {
-            return exact(DE::InvalidUtf8(t));
-        }
-        return Ok(SpecAvp { t, v: SV::Str(p) });
+        let ok = is_utf8(p);
+        return SpecLeaf {
+            ok,
+            exact: if ok { None } else { Some(DE::InvalidUtf8(t)) },
+            v: SpecAvp { t, v: SV::Str(p) },
+        };
     }
     match t {
         1 => {
             if n < 2 {
-                return exact(DE::IncompleteAVP(1));
+                return reject(t, DE::IncompleteAVP(1));
             }
             let code = be16(p, 0);
             if n < 4 {
                 // a single surplus octet cannot hold an error code
-                return Ok(SpecAvp {
-                    t,
-                    v: SV::ResultCode { code, err: None },
-                });
+                return accept(SV::ResultCode { code, err: None });
             }
             let e = be16(p, 2);
             let bad_type = e > 8;
             let msg = &p[4..];
             let bad_msg = !msg.is_empty() && !is_utf8(msg);
-            if bad_type && bad_msg {
-                return Err(SpecErr { exact: None });
-            }
-            if bad_type {
-                return exact(DE::InvalidResultCodeErrorType(e));
-            }
-            if bad_msg {
-                return exact(DE::InvalidUtf8(1));
-            }
             let m = if msg.is_empty() { None } else { Some(msg) };
-            Ok(SpecAvp {
-                t,
-                v: SV::ResultCode {
-                    code,
-                    err: Some((e, m)),
+            SpecLeaf {
+                ok: !bad_type && !bad_msg,
+                exact: if bad_type && !bad_msg {
+                    Some(DE::InvalidResultCodeErrorType(e))
+                } else if bad_msg && !bad_type {
+                    Some(DE::InvalidUtf8(1))
+                } else {
+                    None
                 },
-            })
+                v: SpecAvp {
+                    t,
+                    v: SV::ResultCode {
+                        code,
+                        err: Some((e, m)),
+                    },
+                },
+            }
         }
         12 => {
             if n < 3 {
-                return exact(DE::IncompleteAVP(12));
+                return reject(t, DE::IncompleteAVP(12));
             }
             let adv = &p[3..];
-            if !adv.is_empty() && !is_utf8(adv) {
-                return exact(DE::InvalidUtf8(12));
-            }
-            Ok(SpecAvp {
-                t,
-                v: SV::Q931 {
-                    code: be16(p, 0),
-                    msg: p[2],
-                    adv: if adv.is_empty() { None } else { Some(adv) },
+            let ok = adv.is_empty() || is_utf8(adv);
+            SpecLeaf {
+                ok,
+                exact: if ok { None } else { Some(DE::InvalidUtf8(12)) },
+                v: SpecAvp {
+                    t,
+                    v: SV::Q931 {
+                        code: be16(p, 0),
+                        msg: p[2],
+                        adv: if adv.is_empty() { None } else { Some(adv) },
+                    },
                 },
-            })
+            }
         }
         _ => unreachable!(),
     }
@@ -335,183 +359,194 @@ fn mask_bits(w: u32) -> (bool, bool) {
 }
 
 /// Does the decoded `real` value equal the specified one, field for field,
-/// through the crate's public fields and accessors?
+/// through the crate's public fields and accessors?  Dispatches on the
+/// *specified* attribute type first (a constant in the skeleton harnesses), so
+/// that a real value whose discriminant is not constant in symbolic execution
+/// does not drag all forty comparisons into the path.
 pub fn same(real: &AVP, spec: &SpecAvp) -> bool {
-    let t = spec.t;
-    match (real, &spec.v) {
-        (AVP::Hidden(h), SV::Hidden(v)) => h.attribute_type == t && bytes_eq(&h.value, v),
-        (AVP::Hidden(_), _) | (_, SV::Hidden(_)) => false,
-        _ if rfc_number(real) != t => false,
-        (AVP::MessageType(m), SV::MessageType(c)) => message_type_number(m) == *c,
-        (AVP::ResultCode(r), SV::ResultCode { code, err }) => {
-            let c: u16 = r.code.into();
-            if c != *code {
-                return false;
-            }
-            match (&r.error, err) {
-                (None, None) => true,
-                (Some(re), Some((e, m))) => {
-                    error_type_number(&re.error_type) == *e && opt_str_eq(&re.error_message, *m)
-                }
+    if let SV::Hidden(v) = &spec.v {
+        return match real {
+            AVP::Hidden(h) => h.attribute_type == spec.t && bytes_eq(&h.value, v),
+            _ => false,
+        };
+    }
+    macro_rules! arm {
+        ($var:ident, $x:ident, $pat:pat => $e:expr) => {
+            match (real, &spec.v) {
+                (AVP::$var($x), $pat) => $e,
                 _ => false,
             }
-        }
-        (AVP::ProtocolVersion(p), SV::ProtocolVersion(v, r)) => p.version == *v && p.revision == *r,
-        (AVP::FramingCapabilities(x), SV::Mask(w)) => {
-            (x.is_async_framing_supported(), x.is_sync_framing_supported()) == mask_bits(*w)
-        }
-        (AVP::BearerCapabilities(x), SV::Mask(w)) => {
-            (x.is_analog_access_supported(), x.is_digital_access_supported()) == mask_bits(*w)
-        }
-        (AVP::BearerType(x), SV::Mask(w)) => {
-            (x.is_analog_request(), x.is_digital_request()) == mask_bits(*w)
-        }
-        (AVP::FramingType(x), SV::Mask(w)) => {
-            (x.is_analog_request(), x.is_digital_request()) == mask_bits(*w)
-        }
-        (AVP::TieBreaker(x), SV::U64(v)) => x.value == *v,
-        (AVP::FirmwareRevision(x), SV::U16(v)) => x.value == *v,
-        (AVP::AssignedTunnelId(x), SV::U16(v)) => x.value == *v,
-        (AVP::ReceiveWindowSize(x), SV::U16(v)) => x.value == *v,
-        (AVP::AssignedSessionId(x), SV::U16(v)) => x.value == *v,
-        (AVP::CallSerialNumber(x), SV::U32(v)) => x.value == *v,
-        (AVP::MinimumBps(x), SV::U32(v)) => x.value == *v,
-        (AVP::MaximumBps(x), SV::U32(v)) => x.value == *v,
-        (AVP::TxConnectSpeed(x), SV::U32(v)) => x.value == *v,
-        (AVP::RxConnectSpeed(x), SV::U32(v)) => x.value == *v,
-        (AVP::HostName(x), SV::Bytes(v)) => bytes_eq(&x.value, v),
-        (AVP::Challenge(x), SV::Bytes(v)) => bytes_eq(&x.value, v),
-        (AVP::InitialReceivedLcpConfReq(x), SV::Bytes(v)) => bytes_eq(&x.value, v),
-        (AVP::LastSentLcpConfReq(x), SV::Bytes(v)) => bytes_eq(&x.value, v),
-        (AVP::LastReceivedLcpConfReq(x), SV::Bytes(v)) => bytes_eq(&x.value, v),
-        (AVP::ProxyAuthenName(x), SV::Bytes(v)) => bytes_eq(&x.value, v),
-        (AVP::ProxyAuthenChallenge(x), SV::Bytes(v)) => bytes_eq(&x.value, v),
-        (AVP::ProxyAuthenResponse(x), SV::Bytes(v)) => bytes_eq(&x.value, v),
-        (AVP::PrivateGroupId(x), SV::Bytes(v)) => bytes_eq(&x.value, v),
-        (AVP::VendorName(x), SV::Str(v)) => bytes_eq(x.value.as_bytes(), v),
-        (AVP::CalledNumber(x), SV::Str(v)) => bytes_eq(x.value.as_bytes(), v),
-        (AVP::CallingNumber(x), SV::Str(v)) => bytes_eq(x.value.as_bytes(), v),
-        (AVP::SubAddress(x), SV::Str(v)) => bytes_eq(x.value.as_bytes(), v),
-        (AVP::ChallengeResponse(x), SV::Arr16(v)) => bytes_eq(&x.value, v),
-        (AVP::PhysicalChannelId(x), SV::Arr4(v)) => x.value == *v,
-        (AVP::RandomVector(x), SV::Arr4(v)) => x.value == *v,
-        (AVP::Q931CauseCode(x), SV::Q931 { code, msg, adv }) => {
-            x.cause_code == *code && x.cause_msg == *msg && opt_str_eq(&x.advisory, *adv)
-        }
-        (AVP::ProxyAuthenType(x), SV::ProxyAuthenType(c)) => proxy_authen_type_number(x) == *c,
-        (AVP::ProxyAuthenId(x), SV::ProxyAuthenId(v)) => x.value == *v,
-        (AVP::CallErrors(x), SV::CallErrors(v)) => {
-            x.crc_errors == v[0]
-                && x.framing_errors == v[1]
-                && x.hardware_overruns == v[2]
-                && x.buffer_overruns == v[3]
-                && x.timeout_errors == v[4]
-                && x.alignment_errors == v[5]
-        }
-        (AVP::Accm(x), SV::Accm(s, r)) => x.send_accm == *s && x.receive_accm == *r,
-        (AVP::SequencingRequired(_), SV::Empty) => true,
+        };
+    }
+    match spec.t {
+        0 => arm!(MessageType, m, SV::MessageType(c) => message_type_number(m) == *c),
+        1 => arm!(ResultCode, r, SV::ResultCode { code, err } => {
+            let c: u16 = r.code.into();
+            c == *code
+                && match (&r.error, err) {
+                    (None, None) => true,
+                    (Some(re), Some((e, m))) => error_type_number(&re.error_type) == *e && opt_str_eq(&re.error_message, *m),
+                    _ => false,
+                }
+        }),
+        2 => arm!(ProtocolVersion, p, SV::ProtocolVersion(v, r) => p.version == *v && p.revision == *r),
+        3 => arm!(FramingCapabilities, x, SV::Mask(w) => (x.is_async_framing_supported(), x.is_sync_framing_supported()) == mask_bits(*w)),
+        4 => arm!(BearerCapabilities, x, SV::Mask(w) => (x.is_analog_access_supported(), x.is_digital_access_supported()) == mask_bits(*w)),
+        5 => arm!(TieBreaker, x, SV::U64(v) => x.value == *v),
+        6 => arm!(FirmwareRevision, x, SV::U16(v) => x.value == *v),
+        7 => arm!(HostName, x, SV::Bytes(v) => bytes_eq(&x.value, v)),
+        8 => arm!(VendorName, x, SV::Str(v) => bytes_eq(x.value.as_bytes(), v)),
+        9 => arm!(AssignedTunnelId, x, SV::U16(v) => x.value == *v),
+        10 => arm!(ReceiveWindowSize, x, SV::U16(v) => x.value == *v),
+        11 => arm!(Challenge, x, SV::Bytes(v) => bytes_eq(&x.value, v)),
+        12 => arm!(Q931CauseCode, x, SV::Q931 { code, msg, adv } => x.cause_code == *code && x.cause_msg == *msg && opt_str_eq(&x.advisory, *adv)),
+        13 => arm!(ChallengeResponse, x, SV::Arr16(v) => bytes_eq(&x.value, v)),
+        14 => arm!(AssignedSessionId, x, SV::U16(v) => x.value == *v),
+        15 => arm!(CallSerialNumber, x, SV::U32(v) => x.value == *v),
+        16 => arm!(MinimumBps, x, SV::U32(v) => x.value == *v),
+        17 => arm!(MaximumBps, x, SV::U32(v) => x.value == *v),
+        18 => arm!(BearerType, x, SV::Mask(w) => (x.is_analog_request(), x.is_digital_request()) == mask_bits(*w)),
+        19 => arm!(FramingType, x, SV::Mask(w) => (x.is_analog_request(), x.is_digital_request()) == mask_bits(*w)),
+        21 => arm!(CalledNumber, x, SV::Str(v) => bytes_eq(x.value.as_bytes(), v)),
+        22 => arm!(CallingNumber, x, SV::Str(v) => bytes_eq(x.value.as_bytes(), v)),
+        23 => arm!(SubAddress, x, SV::Str(v) => bytes_eq(x.value.as_bytes(), v)),
+        24 => arm!(TxConnectSpeed, x, SV::U32(v) => x.value == *v),
+        25 => arm!(PhysicalChannelId, x, SV::Arr4(v) => x.value == *v),
+        26 => arm!(InitialReceivedLcpConfReq, x, SV::Bytes(v) => bytes_eq(&x.value, v)),
+        27 => arm!(LastSentLcpConfReq, x, SV::Bytes(v) => bytes_eq(&x.value, v)),
+        28 => arm!(LastReceivedLcpConfReq, x, SV::Bytes(v) => bytes_eq(&x.value, v)),
+        29 => arm!(ProxyAuthenType, x, SV::ProxyAuthenType(c) => proxy_authen_type_number(x) == *c),
+        30 => arm!(ProxyAuthenName, x, SV::Bytes(v) => bytes_eq(&x.value, v)),
+        31 => arm!(ProxyAuthenChallenge, x, SV::Bytes(v) => bytes_eq(&x.value, v)),
+        32 => arm!(ProxyAuthenId, x, SV::ProxyAuthenId(v) => x.value == *v),
+        33 => arm!(ProxyAuthenResponse, x, SV::Bytes(v) => bytes_eq(&x.value, v)),
+        34 => arm!(CallErrors, x, SV::CallErrors(v) => x.crc_errors == v[0]
+            && x.framing_errors == v[1]
+            && x.hardware_overruns == v[2]
+            && x.buffer_overruns == v[3]
+            && x.timeout_errors == v[4]
+            && x.alignment_errors == v[5]),
+        35 => arm!(Accm, x, SV::Accm(s, r) => x.send_accm == *s && x.receive_accm == *r),
+        36 => arm!(RandomVector, x, SV::Arr4(v) => x.value == *v),
+        37 => arm!(PrivateGroupId, x, SV::Bytes(v) => bytes_eq(&x.value, v)),
+        38 => arm!(RxConnectSpeed, x, SV::U32(v) => x.value == *v),
+        39 => arm!(SequencingRequired, _x, SV::Empty => true),
         _ => false,
     }
 }
 
 /// Does a real decode result match a specified one?
-pub fn result_matches(real: &Result<AVP, DE>, spec: &Result<SpecAvp, SpecErr>) -> bool {
-    match (real, spec) {
-        (Ok(a), Ok(s)) => same(a, s),
-        (Err(e), Err(se)) => match &se.exact {
-            Some(x) => e == x,
-            None => true,
-        },
+pub fn result_matches(real: &Result<AVP, DE>, spec: &SpecLeaf) -> bool {
+    match real {
+        Ok(a) => spec.ok && same(a, &spec.v),
+        Err(e) => {
+            !spec.ok
+                && match &spec.exact {
+                    Some(x) => e == x,
+                    None => true,
+                }
+        }
+    }
+}
+
+fn opt_bytes_eq(a: Option<&[u8]>, b: Option<&[u8]>) -> bool {
+    match (a, b) {
+        (None, None) => true,
+        (Some(x), Some(y)) => bytes_eq(x, y),
         _ => false,
     }
+}
+
+/// Equality of two specified values.
+pub fn sv_eq(a: &SpecAvp, b: &SpecAvp) -> bool {
+    a.t == b.t
+        && match (&a.v, &b.v) {
+            (SV::MessageType(x), SV::MessageType(y)) => x == y,
+            (SV::ResultCode { code: c1, err: e1 }, SV::ResultCode { code: c2, err: e2 }) => {
+                c1 == c2
+                    && match (e1, e2) {
+                        (None, None) => true,
+                        (Some((x, m)), Some((y, k))) => x == y && opt_bytes_eq(*m, *k),
+                        _ => false,
+                    }
+            }
+            (SV::ProtocolVersion(a1, a2), SV::ProtocolVersion(b1, b2)) => a1 == b1 && a2 == b2,
+            (SV::Mask(x), SV::Mask(y)) => x == y,
+            (SV::U16(x), SV::U16(y)) => x == y,
+            (SV::U32(x), SV::U32(y)) => x == y,
+            (SV::U64(x), SV::U64(y)) => x == y,
+            (SV::Bytes(x), SV::Bytes(y)) => bytes_eq(x, y),
+            (SV::Str(x), SV::Str(y)) => bytes_eq(x, y),
+            (SV::Arr4(x), SV::Arr4(y)) => x == y,
+            (SV::Arr16(x), SV::Arr16(y)) => bytes_eq(x, y),
+            (SV::Q931 { code: c1, msg: m1, adv: a1 }, SV::Q931 { code: c2, msg: m2, adv: a2 }) => {
+                c1 == c2 && m1 == m2 && opt_bytes_eq(*a1, *a2)
+            }
+            (SV::ProxyAuthenType(x), SV::ProxyAuthenType(y)) => x == y,
+            (SV::ProxyAuthenId(x), SV::ProxyAuthenId(y)) => x == y,
+            (SV::CallErrors(x), SV::CallErrors(y)) => x == y,
+            (SV::Accm(s1, r1), SV::Accm(s2, r2)) => s1 == s2 && r1 == r2,
+            (SV::Empty, SV::Empty) => true,
+            (SV::Hidden(x), SV::Hidden(y)) => bytes_eq(x, y),
+            _ => false,
+        }
 }
 
 // ---------------------------------------------------------------------------
 // encoder side
 
-/// Specified payload octets of an AVP value (reserved octets zero).  For the
-/// four bitmask kinds the 32-bit word is not observable through the public API
-/// beyond its two flag bits; `mask_word` supplies it where the harness knows
-/// it (constructor arguments or the word that was decoded).
-pub fn spec_payload(a: &AVP, mask_word: u32, out: &mut Vec<u8>) {
-    match a {
-        AVP::MessageType(m) => out.extend_from_slice(&message_type_number(m).to_be_bytes()),
-        AVP::ResultCode(r) => {
-            let c: u16 = r.code.into();
-            out.extend_from_slice(&c.to_be_bytes());
-            if let Some(e) = &r.error {
-                out.extend_from_slice(&error_type_number(&e.error_type).to_be_bytes());
-                if let Some(m) = &e.error_message {
-                    out.extend_from_slice(m.as_bytes());
+/// Specified payload octets of an AVP value (reserved octets zero).
+pub fn spec_payload(s: &SpecAvp, out: &mut Vec<u8>) {
+    match &s.v {
+        SV::MessageType(c) => out.extend_from_slice(&c.to_be_bytes()),
+        SV::ResultCode { code, err } => {
+            out.extend_from_slice(&code.to_be_bytes());
+            if let Some((e, m)) = err {
+                out.extend_from_slice(&e.to_be_bytes());
+                if let Some(m) = m {
+                    out.extend_from_slice(m);
                 }
             }
         }
-        AVP::ProtocolVersion(p) => {
-            out.push(p.version);
-            out.push(p.revision);
+        SV::ProtocolVersion(v, r) => {
+            out.push(*v);
+            out.push(*r);
         }
-        AVP::FramingCapabilities(_)
-        | AVP::BearerCapabilities(_)
-        | AVP::BearerType(_)
-        | AVP::FramingType(_) => out.extend_from_slice(&mask_word.to_be_bytes()),
-        AVP::TieBreaker(x) => out.extend_from_slice(&x.value.to_be_bytes()),
-        AVP::FirmwareRevision(x) => out.extend_from_slice(&x.value.to_be_bytes()),
-        AVP::AssignedTunnelId(x) => out.extend_from_slice(&x.value.to_be_bytes()),
-        AVP::ReceiveWindowSize(x) => out.extend_from_slice(&x.value.to_be_bytes()),
-        AVP::AssignedSessionId(x) => out.extend_from_slice(&x.value.to_be_bytes()),
-        AVP::CallSerialNumber(x) => out.extend_from_slice(&x.value.to_be_bytes()),
-        AVP::MinimumBps(x) => out.extend_from_slice(&x.value.to_be_bytes()),
-        AVP::MaximumBps(x) => out.extend_from_slice(&x.value.to_be_bytes()),
-        AVP::TxConnectSpeed(x) => out.extend_from_slice(&x.value.to_be_bytes()),
-        AVP::RxConnectSpeed(x) => out.extend_from_slice(&x.value.to_be_bytes()),
-        AVP::HostName(x) => out.extend_from_slice(&x.value),
-        AVP::Challenge(x) => out.extend_from_slice(&x.value),
-        AVP::InitialReceivedLcpConfReq(x) => out.extend_from_slice(&x.value),
-        AVP::LastSentLcpConfReq(x) => out.extend_from_slice(&x.value),
-        AVP::LastReceivedLcpConfReq(x) => out.extend_from_slice(&x.value),
-        AVP::ProxyAuthenName(x) => out.extend_from_slice(&x.value),
-        AVP::ProxyAuthenChallenge(x) => out.extend_from_slice(&x.value),
-        AVP::ProxyAuthenResponse(x) => out.extend_from_slice(&x.value),
-        AVP::PrivateGroupId(x) => out.extend_from_slice(&x.value),
-        AVP::VendorName(x) => out.extend_from_slice(x.value.as_bytes()),
-        AVP::CalledNumber(x) => out.extend_from_slice(x.value.as_bytes()),
-        AVP::CallingNumber(x) => out.extend_from_slice(x.value.as_bytes()),
-        AVP::SubAddress(x) => out.extend_from_slice(x.value.as_bytes()),
-        AVP::ChallengeResponse(x) => out.extend_from_slice(&x.value),
-        AVP::PhysicalChannelId(x) => out.extend_from_slice(&x.value),
-        AVP::RandomVector(x) => out.extend_from_slice(&x.value),
-        AVP::Q931CauseCode(x) => {
-            out.extend_from_slice(&x.cause_code.to_be_bytes());
-            out.push(x.cause_msg);
-            if let Some(a) = &x.advisory {
-                out.extend_from_slice(a.as_bytes());
+        SV::Mask(w) => out.extend_from_slice(&w.to_be_bytes()),
+        SV::U16(v) => out.extend_from_slice(&v.to_be_bytes()),
+        SV::U32(v) => out.extend_from_slice(&v.to_be_bytes()),
+        SV::U64(v) => out.extend_from_slice(&v.to_be_bytes()),
+        SV::Bytes(b) | SV::Str(b) | SV::Hidden(b) => out.extend_from_slice(b),
+        SV::Arr4(a) => out.extend_from_slice(a),
+        SV::Arr16(a) => out.extend_from_slice(a),
+        SV::Q931 { code, msg, adv } => {
+            out.extend_from_slice(&code.to_be_bytes());
+            out.push(*msg);
+            if let Some(a) = adv {
+                out.extend_from_slice(a);
             }
         }
-        AVP::ProxyAuthenType(x) => {
-            out.extend_from_slice(&proxy_authen_type_number(x).to_be_bytes())
+        SV::ProxyAuthenType(c) => out.extend_from_slice(&c.to_be_bytes()),
+        SV::ProxyAuthenId(v) => {
+            out.push(0);
+            out.push(*v);
         }
-        AVP::ProxyAuthenId(x) => {
+        SV::CallErrors(v) => {
             out.push(0);
-            out.push(x.value);
+            out.push(0);
+            let mut i = 0;
+            while i < 6 {
+                out.extend_from_slice(&v[i].to_be_bytes());
+                i += 1;
+            }
         }
-        AVP::CallErrors(x) => {
+        SV::Accm(s, r) => {
             out.push(0);
             out.push(0);
-            out.extend_from_slice(&x.crc_errors.to_be_bytes());
-            out.extend_from_slice(&x.framing_errors.to_be_bytes());
-            out.extend_from_slice(&x.hardware_overruns.to_be_bytes());
-            out.extend_from_slice(&x.buffer_overruns.to_be_bytes());
-            out.extend_from_slice(&x.timeout_errors.to_be_bytes());
-            out.extend_from_slice(&x.alignment_errors.to_be_bytes());
+            out.extend_from_slice(s);
+            out.extend_from_slice(r);
         }
-        AVP::Accm(x) => {
-            out.push(0);
-            out.push(0);
-            out.extend_from_slice(&x.send_accm);
-            out.extend_from_slice(&x.receive_accm);
-        }
-        AVP::SequencingRequired(_) => {}
-        AVP::Hidden(h) => out.extend_from_slice(&h.value),
+        SV::Empty | SV::Nothing => {}
     }
 }
 
@@ -519,18 +554,18 @@ pub fn spec_payload(a: &AVP, mask_word: u32, out: &mut Vec<u8>) {
 /// in bits 6–7, M in bit 0 (always set by this encoder), H in bit 1 (hidden
 /// AVPs only), bits 2–5 zero; second octet = low length bits; vendor id 0;
 /// attribute type; payload.  Panics (like the encoder must) over 1023 octets.
-pub fn spec_record(a: &AVP, mask_word: u32, out: &mut Vec<u8>) {
+pub fn spec_record(s: &SpecAvp, out: &mut Vec<u8>) {
     let mut payload = Vec::new();
-    spec_payload(a, mask_word, &mut payload);
+    spec_payload(s, &mut payload);
     let total = payload.len() + 6;
     assert!(total <= 1023);
-    let hidden = matches!(a, AVP::Hidden(_));
+    let hidden = matches!(s.v, SV::Hidden(_));
     let o1 = ((((total >> 8) & 3) as u8) << 6) | 1 | if hidden { 2 } else { 0 };
     out.push(o1);
     out.push((total & 0xff) as u8);
     out.push(0);
     out.push(0);
-    out.extend_from_slice(&rfc_number(a).to_be_bytes());
+    out.extend_from_slice(&s.t.to_be_bytes());
     out.extend_from_slice(&payload);
 }
 
